@@ -206,7 +206,7 @@ func hexq(b []byte) string {
 	if len(b) == 0 {
 		return "(empty)"
 	}
-	if len(b) <= 160 {
+	if len(b) <= 1500 { // whole input, so that a witness can be replayed by hand
 		return vf.Hex(b)
 	}
 	return vf.HexS(b)
